@@ -2,11 +2,13 @@ package sims
 
 import (
 	"context"
+	"crypto/sha256"
 	"crypto/x509"
 	"crypto/x509/pkix"
 	"errors"
 	"fmt"
 	"math/big"
+	"sort"
 	"sync"
 	"time"
 
@@ -65,6 +67,68 @@ type CRLSet struct {
 	BaseDER  []byte
 	DeltaDER []byte
 	Bundle   *crl.Bundle // parsed (nil when the behaviour is a fetch failure)
+	print    [32]byte    // fingerprint of Bundle as handed out the first time
+}
+
+// fingerprint covers everything a revocation check reads from a bundle.
+func fingerprint(b *crl.Bundle) [32]byte {
+	h := sha256.New()
+	for _, l := range []*x509.RevocationList{b.BaseCRL, b.DeltaCRL} {
+		if l == nil {
+			h.Write([]byte{0})
+			continue
+		}
+		h.Write(l.Raw)
+		h.Write(l.RawTBSRevocationList)
+		h.Write(l.Signature)
+		fmt.Fprint(h, l.Number, l.ThisUpdate.Unix(), l.NextUpdate.Unix(), len(l.RevokedCertificateEntries), len(l.Extensions))
+		for _, e := range l.RevokedCertificateEntries {
+			fmt.Fprint(h, e.SerialNumber, e.RevocationTime.Unix(), e.ReasonCode, len(e.Extensions))
+			h.Write(e.Raw)
+			for _, x := range e.Extensions {
+				h.Write(x.Value)
+			}
+		}
+		for _, x := range l.Extensions {
+			fmt.Fprint(h, x.Id, x.Critical)
+			h.Write(x.Value)
+		}
+	}
+	var out [32]byte
+	copy(out[:], h.Sum(nil))
+	return out
+}
+
+// ModifiedBundles lists the bundle objects of every family whose content is no
+// longer what it was when first handed out: they belong to the caller (here:
+// to the fetcher double and the cache), a check may read them only.
+func ModifiedBundles() []string {
+	famMu.Lock()
+	var fs []*Family
+	for _, f := range fams {
+		fs = append(fs, f)
+	}
+	famMu.Unlock()
+	var out []string
+	for _, f := range fs {
+		f.mu.Lock()
+		kits := make([]*Kit, 0, len(f.kits))
+		for _, k := range f.kits {
+			kits = append(kits, k)
+		}
+		f.mu.Unlock()
+		for _, k := range kits {
+			k.mu.Lock()
+			for key, set := range k.crls {
+				if set.Bundle != nil && fingerprint(set.Bundle) != set.print {
+					out = append(out, fmt.Sprintf("%s position %d CRL %s", f.Tag, k.Pos, key))
+				}
+			}
+			k.mu.Unlock()
+		}
+	}
+	sort.Strings(out)
+	return out
 }
 
 func padExt(n int) pkix.Extension {
@@ -91,6 +155,9 @@ func (k *Kit) CRL(beh string, slot int) *CRLSet {
 	}
 	k.mu.Unlock()
 	s := k.buildCRL(beh, slot)
+	if s.Bundle != nil {
+		s.print = fingerprint(s.Bundle)
+	}
 	k.mu.Lock()
 	k.crls[key] = s
 	k.mu.Unlock()
